@@ -273,30 +273,37 @@ class FuncUnit(Unit):
 
     def falsify(self, k, ob, samples):
         """find a sampled admissible input at which hypotheses hold and the goal is false; undischarged
-        obligations get many more samples than the routine validation"""
+        obligations get more samples than the routine validation (time-boxed)"""
         rng = random.Random(987654321)
-        extra = []
-        for _ in range(1500):
-            v = sample_inputs(k, rng, tries=20)
-            if v is not None:
-                extra.append(v)
-        for vals in list(samples) + extra:
+        t_end = time.time() + 25
+        pool = list(samples)
+        i = 0
+        while time.time() < t_end and i < len(pool) + 400:
+            if i < len(pool):
+                vals = pool[i]
+            else:
+                vals = sample_inputs(k, rng, tries=20)
+            i += 1
+            if vals is None:
+                continue
             try:
                 env = T.complete_env(ob.ctx, env_of(k, vals))
-                if not all(T.numeval(c, env) for c in ob.pc):
-                    continue
-                if not all(T.numeval(c, env) for c in ob.facts):
-                    continue
+                # the goal first (cheap), the hypotheses only for candidates
                 if ob.eq is not None:
                     l = T.numeval(ob.eq[0].z, env)
                     r = T.numeval(ob.eq[1].z, env)
                     bad = abs(l - r) > 1e-6 * (1 + abs(l) + abs(r))
                 else:
                     bad = not T.numeval(ob.goal, env)
-                if bad:
-                    m = {kk: vv for kk, vv in env.items() if isinstance(kk, str)}
-                    m['__inputs__'] = _jsonable(vals)
-                    return m
+                if not bad:
+                    continue
+                if not all(T.numeval(c, env) for c in ob.pc):
+                    continue
+                if not all(T.numeval(c, env) for c in ob.facts):
+                    continue
+                m = {kk: vv for kk, vv in env.items() if isinstance(kk, str) and isinstance(vv, (int, float))}
+                m['__inputs__'] = _jsonable(vals)
+                return m
             except (KeyError, ZeroDivisionError, ValueError, OverflowError, TypeError):
                 continue
         return None
@@ -436,7 +443,11 @@ _PENDING = []      # (unit index, Obligation, falsifier) -- inherited by the for
 
 def _discharge_index(i):
     ui, ob, fals = _PENDING[i]
+    if os.environ.get('PYVC_TRACE'):
+        print('  start %s' % ob.name, file=sys.stderr, flush=True)
     r = D.discharge(ob)
+    if os.environ.get('PYVC_TRACE'):
+        print('  done  %s %s %.1fs' % (ob.name, r['status'], r.get('seconds', 0)), file=sys.stderr, flush=True)
     r['path'] = ob.path
     if r['status'] in ('unknown', 'refuted') and r.get('model') is None and fals is not None:
         try:
@@ -626,7 +637,7 @@ def report(prop, results, tier, seed, level, assumptions, trusted, bounded, t0, 
                         'failures': len(b['failures'])})
         for fl in b['failures'][:1]:
             name = r['unit']
-            kf = match_known(known, name)
+            kf = match_known(known, name, fl if isinstance(fl, dict) else None)
             if kf is not None:
                 known_seen.append(kf)
                 lines.append('KNOWN-FINDING: property=%s %s -- %s' % (prop, name, kf.get('what', '')))
